@@ -5,6 +5,7 @@
 set -euo pipefail
 OUT="$1"; shift
 REPO="${VERIF_REPO:-/repo}"
+VERIF="$(cd "$(dirname "$0")/.." && pwd)"
 export GOFLAGS=-mod=mod GOPROXY=off GOSUMDB=off GOTOOLCHAIN=local CGO_ENABLED="${CGO_ENABLED:-0}"
 mkdir -p "$OUT"
 # group.go as it is now, with the expander calls routed through an override hook (chosen expander
@@ -12,11 +13,11 @@ mkdir -p "$OUT"
 sed 's/\bexpandXMD(/verifExpandXMD(/g' "$REPO/group.go" > "$OUT/group_verif.go"
 {
   echo '{"Replace":{'
-  echo "\"$REPO/zz_verif_access.go\":\"/verif/harness/access_root.go\","
-  echo "\"$REPO/internal/field/zz_verif_access.go\":\"/verif/harness/access_field.go\","
+  echo "\"$REPO/zz_verif_access.go\":\"$VERIF/harness/access_root.go\","
+  echo "\"$REPO/internal/field/zz_verif_access.go\":\"$VERIF/harness/access_field.go\","
   echo "\"$REPO/group.go\":\"$OUT/group_verif.go\","
   first=1
-  for f in /verif/harness/main/*.go; do
+  for f in "$VERIF"/harness/main/*.go; do
     [ $first = 1 ] || echo ","
     first=0
     echo -n "\"$REPO/internal/verifharness/$(basename "$f")\":\"$f\""
